@@ -741,6 +741,35 @@ func (s *appStream) genBlock(r *tr.Rng) {
 			}
 		}
 	}
+	// the signer of the execution-block message picks its gas limit: one that runs out inside the handler - most often in
+	// its very last store write, after the head was written - fails the message as a whole (C09: the recorded head and what
+	// the engine is told stay the old head; C06: nothing is consumed).  The need is measured by a trial run of the same block
+	// whose uncommitted state is dropped again by a restart (FinalizeBlock already flushes into the working trees).
+	gasShort := false
+	if ethCls == "" && eb.Payload != nil && newStatus == "VALID" && fcuStatus == "VALID" && !malformed && s.twin == nil &&
+		r.Chance(pick(s.profile == "app-engine", 60, 5)) {
+		if s.processed {
+			sim.EngineBarrier()
+		}
+		probe, perr := sim.Finalize(sim.ProposerAddr(proposerIdx), txs, votes, evidence)
+		sim.EngineBarrier()
+		if err := sim.Restart(); err != nil {
+			panic(err)
+		}
+		if perr == nil && probe.TxResults[0].Code == 0 && probe.TxResults[0].GasUsed > 8000 {
+			g := uint64(probe.TxResults[0].GasUsed)
+			cut := uint64(1 + r.Intn(2800)) // inside the last store write (2000 flat + 30 per byte of a 32-byte value)
+			if r.Chance(35) {
+				cut = uint64(1 + r.Intn(int(g/2)))
+			}
+			raw, err := sim.SignTx(sim.Validators[proposerIdx].Priv, []sdk.Msg{&goatmod.MsgNewEthBlock{Proposer: sim.Validators[proposerIdx].AddrStr, Payload: eb.Payload}},
+				appsim.TxOpts{GasLimit: g - cut, TimeoutHeight: ethTimeout})
+			if err == nil {
+				txs[0] = raw
+				gasShort = true
+			}
+		}
+	}
 	var rawTxs []*pendingTx
 	if malformed {
 		for n := r.Intn(3); n > 0; n-- { // undecodable transactions inside the block
@@ -864,6 +893,10 @@ func (s *appStream) genBlock(r *tr.Rng) {
 	pl := eb.Payload
 	eo := tr.NewOp("ethblock", "tx.ethblock", "ante", "finalize", "signer", sdk.AccAddress(proposer).String(), "signers", 1, "memo", 0, "timeout", ethTimeout, "height", height,
 		"sigok", "1", "seqok", "1", "time", s.now, "proposer", tr.Hex(proposer), "comet", tr.Hex(proposer), "headerhash", tr.Hex(sim.BlockHash(height)))
+	if gasShort {
+		eo.Add("oog", "1") // the gas limit its signer chose is below what the handler needs (measured on a trial run)
+		ethCls += "/gas-short"
+	}
 	if strings.Contains(ethCls, "timestamp-ahead") {
 		eo.Add("tsahead", "1") // an honest payload in every respect the state transition may look at; only its timestamp is ahead of this machine's clock
 	}
@@ -1169,7 +1202,7 @@ func (s *appStream) realPrepare(r *tr.Rng, ptxs []*pendingTx, script *appsim.Blo
 		honest = false // the scripted execution layer misbehaved (fault class), not an honest build
 	}
 	o := tr.NewOp("process/real-prepare", "a.process", "honest", tr.B(honest), "height", height, "kinds", tr.StrList(kinds), "anteok", tr.StrList(anteok),
-		"proposer", tr.Hex(val.ConsAddr), "comet", tr.Hex(val.ConsAddr), "newstatus", "VALID")
+		"proposer", tr.Hex(val.ConsAddr), "comet", tr.Hex(val.ConsAddr), "newstatus", "VALID", "own", "1")
 	payloadArgs(o, eb.Payload, false)
 	pres := "ok"
 	if perr != nil {
@@ -1687,6 +1720,24 @@ func canonDump(line string) string {
 	return strings.Join(f, " ")
 }
 
+// rewardTotal: undistributed pools + validators' unclaimed rewards + payouts queued for the execution layer
+func rewardTotal(ctx sdk.Context, k lockingkeeper.Keeper) string {
+	t := sdkmath.ZeroInt()
+	if p, err := k.RewardPool.Get(ctx); err == nil {
+		t = t.Add(p.Goat).Add(p.Gas).Add(p.Remain)
+	}
+	_ = k.Validators.Walk(ctx, nil, func(_ sdk.ConsAddress, v lockingtypes.Validator) (bool, error) {
+		t = t.Add(v.Reward).Add(v.GasReward)
+		return false, nil
+	})
+	if q, err := k.EthTxQueue.Get(ctx); err == nil {
+		for _, r := range q.Rewards {
+			t = t.Add(r.Goat).Add(r.Gas)
+		}
+	}
+	return t.String()
+}
+
 func (s *appStream) exportImport(r *tr.Rng) (op *tr.Op) {
 	same, detail := "1", "-"
 	fail := func(d string) *tr.Op {
@@ -1725,6 +1776,10 @@ func (s *appStream) exportImport(r *tr.Rng) (op *tr.Op) {
 	head, beacon, _ := sim2.EthHead()
 	after := []string{world.DumpRel(w2.Ctx, w2), world.DumpBtc(w2.Ctx, w2), world.DumpLock(w2.Ctx, w2),
 		fmt.Sprintf("goat head=%x|%d|%x beacon=%x", head.BlockHash, head.BlockNumber, head.ParentHash, beacon)}
+	// reward value is accounted for across the restart too (C12): pools + accrued + queued payouts
+	if t1, t2 := rewardTotal(sim.ReadCtx(), sim.App.LockingKeeper), rewardTotal(w2.Ctx, sim2.App.LockingKeeper); t1 != t2 {
+		return fail("reward-total-differs:" + t1 + "/" + t2)
+	}
 	for i, b := range before {
 		if canonDump(b.res) != canonDump(after[i]) {
 			return fail("state-differs:" + []string{"rel", "btc", "lock", "goat"}[i] + ":" + diffTokens(canonDump(b.res), canonDump(after[i])))
